@@ -30,6 +30,9 @@ class Crate:
         self.by_path = defaultdict(list)
         for b in self.bodies:
             self.by_path[b.path].append(b)
+        # new helper functions that were spliced into their callers: kept aside for the places that name them as values
+        # (`.ok_or_else(helper)`), never part of `bodies`
+        self.helper_defs = {b['path']: Body(b, self) for b in d.get('helper_defs', [])}
 
     def find(self, pat, kind=None):
         """bodies whose path equals pat, or ends with '::'+pat, or (if pat is a regex object) matches"""
@@ -172,8 +175,11 @@ def alias_renamed(dd, known, ksigs):
         if scored and scored[0][0] >= 0.6 and (len(scored) == 1 or scored[0][0] - scored[1][0] >= 0.15):
             pairs.append((scored[0][0], m, scored[0][1]))
     used_n = {}
+    # one new function that is the best match of several vanished ones took over all their jobs (a merge, e.g. four per-kind
+    # generators folded into one parametrised generator): not a rename — it is left to be spliced into its callers
+    merged = {n for n in {n for _, _, n in pairs} if len([1 for _, m_, n_ in pairs if n_ == n]) > 1}
     for sc, m, n in sorted(pairs, reverse=True):
-        if n not in used_n and n not in ren:
+        if n not in used_n and n not in ren and n not in merged:
             used_n[n] = m
     for n, m in used_n.items():
         ren[n] = m
@@ -196,8 +202,12 @@ def alias_renamed(dd, known, ksigs):
             if m_ in missing and m_ not in ren.values() and n_ in new and n_ not in ren:
                 votes[m_].add(n_)
     taken = set()
+    nvotes = defaultdict(set)
+    for m_, ns in votes.items():
+        for n_ in ns:
+            nvotes[n_].add(m_)
     for m_, ns in sorted(votes.items()):
-        if len(ns) == 1 and list(ns)[0] not in taken:
+        if len(ns) == 1 and list(ns)[0] not in taken and len(nvotes[list(ns)[0]]) == 1 and list(ns)[0] not in merged:
             ren[list(ns)[0]] = m_
             taken.add(list(ns)[0])
     if not ren:
@@ -369,6 +379,7 @@ def inline_new_helpers(dd, known, max_rounds=4):
                 blocks[bi]['term'] = {'k': 'goto', 't': boff, 'ln': ln, 'inlined': h['path']}
         if not changed:
             break
+    dd['helper_defs'] = [b for b in dd['bodies'] if b['path'] in used and b['kind'] == 'fn']
     dd['bodies'] = [b for b in dd['bodies'] if not (b['path'] in used and b['kind'] == 'fn')]
     dd['inlined_helpers'] = sorted(used)
 
@@ -1239,6 +1250,23 @@ class Body:
                         out.append(tb)
                 return know, out
         return know, self.succs(bb)
+
+    def guard_values(self, s, vals):
+        """the concrete discriminant values an edge-guard (s, vals) stands for: the arm values, plus — for the otherwise edge of a
+        switch on an enum discriminant — every variant without an arm of its own.  None when the otherwise edge is not enumerable."""
+        out = {v for v in vals if v != 'else'}
+        if 'else' in vals:
+            t = self.blocks[s]['term']
+            pl = t['on'].get('cp') or t['on'].get('mv')
+            allv = None
+            if pl is not None and not pl.get('pr'):
+                ds = self.defs().get(pl['l'], [])
+                if len(ds) == 1 and ds[0][0] == 'stmt' and 'discr' in ds[0][3] and ds[0][3].get('variants'):
+                    allv = {v for v, n in ds[0][3]['variants']}
+            if allv is None:
+                return None
+            out |= allv - {v for v, _ in t['arms']}
+        return out
 
     def else_infeasible(self, bb):
         """True iff block bb switches on the discriminant of an enum whose every variant has its own arm (the otherwise edge
